@@ -30,6 +30,7 @@ DecodeViol(e) ==
   LET g == e.got  x == e.exp  c == Ctx(e) IN
   Check("C05", "decoder-total-no-panic", ~Has(g, "panic"), c)
   \cup Check("C05", "result-independent-of-bytes-beyond-datagram", ~Has(e, "stable") \/ e.stable, c)
+  \cup (IF Has(g, "panic") /\ ~Has(x, "any") THEN Check(e.prop, IF x.err THEN "malformed-input-rejected" ELSE "valid-encoding-accepted", FALSE, c) ELSE {})
   \cup (IF Has(g, "panic") \/ Has(x, "any") THEN {}
         ELSE IF x.err THEN Check(e.prop, "malformed-input-rejected", g.err, c)
         ELSE Check(e.prop, "valid-encoding-accepted", ~g.err, c)
@@ -64,6 +65,9 @@ NewViol == LET e == Ev IN
   ELSE IF e.kind = "reuse" THEN ReuseViol(e)
   ELSE IF e.kind = "serialize" THEN SerViol(e)
   ELSE IF e.kind = "aes" THEN AesViol(e)
+  ELSE IF e.kind = "func" THEN Check("C05", "function-no-panic", ~Has(e.got, "panic"), Ctx(e))
+                               \cup (IF Has(e.got, "panic") THEN Check(e.prop, "agrees-with-mathematical-definition", FALSE, Ctx(e))
+                                     ELSE Check(e.prop, "agrees-with-mathematical-definition", Agrees(e.got, e.exp), Ctx(e)))
   ELSE {}
 
 IsKnown(v) == \E i \in 1..Len(Known) : LET k == Known[i] IN k.prop = v.prop /\ k.pred = v.pred
